@@ -1,5 +1,6 @@
 """C04 - trace-header and file-header preservation through compression."""
 import ast
+RF_READER = 'read.SgzReader'
 import os
 import re
 from ..core import U, AnalysisError, parent, enclosing_stmt
@@ -112,6 +113,7 @@ def run(ctx):
     file_header(ctx)
     check_pairing(ctx, 'C04.6')
     classification(ctx)
+    footer_decode(ctx)
     ctx.rule('C04.8', 'footer arrays of both converters are written at the stride and in the order the reader derives')
     from .. import headerrules as HR
     from .c03 import check_footer
@@ -607,3 +609,55 @@ def classification(ctx):
         ctx.fail('C04.7', init, consts[0], 'the table-constant test %s fields that are %s' % (
             'misses' if set(bad) <= want_c else 'includes', ' / '.join(CLASSES[i][0] for i in bad)))
     ctx.floor('C04.7', 3)
+
+
+def footer_decode(ctx):
+    """C04.9: footer arrays hold little-endian signed 32-bit integers (C04.1).  Every decode of bytes fetched from a
+    footer array - a range read whose offset derives from a FileOffset of the header-word template - uses a signed
+    32-bit decoder (np.frombuffer(.., dtype=int32) or the signed struct codec); an unsigned decoder turns negative
+    header values into value + 2**32."""
+    from .. import tables as TB
+    P, G = ctx.P, ctx.G
+    ctx.rule('C04.9', 'bytes of a footer array are decoded as signed 32-bit integers wherever they are read')
+    C = TB.codecs(P)
+    reader = P.cls(RF_READER)
+    n = 0
+    for m in reader.methods.values():
+        for call in ast.walk(m.node):
+            if not (isinstance(call, ast.Call) and U(call.func).endswith('read_range') and len(call.args) >= 3):
+                continue
+            off = U(call.args[1])
+            if not ('template' in off or off.split(' ')[0] in ('v', 'offset')):
+                continue
+            # where do the bytes go?
+            par = parent(call)
+            uses = []
+            if isinstance(par, ast.Assign) and isinstance(par.targets[0], ast.Name):
+                nm = par.targets[0].id
+                uses = [parent(x) for x in ast.walk(m.node) if isinstance(x, ast.Name) and x.id == nm and isinstance(x.ctx, ast.Load)]
+            elif isinstance(par, ast.Call):
+                uses = [par]
+            decs = [u for u in uses if isinstance(u, ast.Call)]
+            if not decs:
+                raise AnalysisError('%s: the bytes of `%s` are not handed to a decoder' % (m.qualname, U(call)[:50]))
+            for d in decs:
+                nm = U(d.func).split('.')[-1]
+                n += 1
+                if nm == 'frombuffer':
+                    dt = [U(k.value) for k in d.keywords if k.arg == 'dtype'] or ([U(d.args[1])] if len(d.args) > 1 else [])
+                    if dt and dt[0] in INT32:
+                        ctx.ok('C04.9', m, d, 'footer bytes decoded as int32')
+                    else:
+                        ctx.fail('C04.9', m, enclosing_stmt(d), 'footer bytes are decoded with dtype %s, the arrays hold signed 32-bit '
+                                 'integers' % (dt[0] if dt else 'float64 (default)'), line=d.lineno)
+                elif nm in C:
+                    ft = TB.fmt_type(C[nm].fmt_for(4))
+                    if ft and ft[1] == 'int' and C[nm].fmt_for(4).lstrip('<>=!@').islower():
+                        ctx.ok('C04.9', m, d, 'footer bytes decoded with the signed codec %s' % nm)
+                    else:
+                        ctx.fail('C04.9', m, enclosing_stmt(d), 'footer bytes are decoded with %s (%s, unsigned): a negative header '
+                                 'value reads back as value + 2**32' % (nm, C[nm].fmt_for(4)), line=d.lineno)
+                else:
+                    raise AnalysisError('%s: decoder `%s` of footer bytes not recognised' % (m.qualname, U(d.func)))
+    if n < 3:
+        raise AnalysisError('footer decodes in the reader: only %d found' % n)
